@@ -1224,6 +1224,8 @@ where
     pool: Vec<E::TargetField>,
     lay: Vec<Seg>,
     size: usize,
+    /// elements of small prime order l (l < 200, l | q^k - 1, l != r): w^((q^k-1)/l) for a few small w
+    small: Vec<(u32, E::TargetField)>,
 }
 
 impl<E: Pairing> GtCtx<E>
@@ -1242,7 +1244,31 @@ where
         pool.push(ref_pow(&g, &(&r - 1u32)));
         let lay = field_layout(0, tw.t.degree(), tw.prime.bits, 0);
         let size = PairingOutput::<E>(g).serialized_size(Compress::Yes);
-        GtCtx { tw, r, pool, lay, size }
+        // small-order elements of the multiplicative group of the target field
+        let order = field_order(&tw) - 1u32;
+        let d = E::TargetField::extension_degree() as usize;
+        let mut small = Vec::new();
+        for l in 2u32..200 {
+            if (2..l).any(|m| l % m == 0) || !(&order % l).is_zero() || BigUint::from(l) == r {
+                continue;
+            }
+            let e = &order / l;
+            for w0 in 2u64..6 {
+                let mut cs = vec![<E::TargetField as Field>::BasePrimeField::zero(); d];
+                cs[0] = <E::TargetField as Field>::BasePrimeField::from(w0);
+                cs[d - 1] += <E::TargetField as Field>::BasePrimeField::one();
+                if d > 2 {
+                    cs[1] = <E::TargetField as Field>::BasePrimeField::from(w0 + 1);
+                }
+                let w = E::TargetField::from_base_prime_field_elems(cs).unwrap();
+                let z = ref_pow(&w, &e);
+                if !z.is_one() && !z.is_zero() {
+                    small.push((l, z));
+                    break;
+                }
+            }
+        }
+        GtCtx { tw, r, pool, lay, size, small }
     }
 }
 
@@ -1257,7 +1283,13 @@ where
     let one = E::TargetField::one();
     let enc_of = |f: &E::TargetField| ser(&PairingOutput::<E>(*f), Compress::Yes);
     // (element, label); membership is decided below by the reference power
-    let (mut input, label, elem): (Vec<u8>, &'static str, Option<E::TargetField>) = match t.weighted(&[3, 1, 2, 2, 2, 1, 2, 3, 2, 3]) {
+    let (mut input, label, elem): (Vec<u8>, &'static str, Option<E::TargetField>) = match t.weighted(&[3, 1, 2, 2, 2, 1, 2, 3, 2, 3, 3]) {
+        10 if !cx.small.is_empty() => {
+            // valid element (or 1) times an element of small prime order of the target field's multiplicative group
+            let (_, z) = cx.small[t.idx(cx.small.len())];
+            let f = if t.chance(1, 4) { z } else { base * z };
+            (enc_of(&f)?, "d.valid-times-small-order", Some(f))
+        },
         0 => (enc_of(&base)?, "a.valid", Some(base)),
         1 => (enc_of(&one)?, "a.identity", Some(one)),
         2 => {
@@ -1722,6 +1754,10 @@ fn relations(tier: Tier) -> Vec<Rel> {
     gt_rels::<ark_mnt4_298::MNT4_298>(&mut out, "mnt4_298", tier, 1);
     gt_rels::<ark_mnt6_298::MNT6_298>(&mut out, "mnt6_298", tier, 2);
     gt_rels::<ark_bw6_761::BW6_761>(&mut out, "bw6_761", tier, 6);
+    gt_rels::<ark_bw6_767::BW6_767>(&mut out, "bw6_767", tier, 6);
+    gt_rels::<ark_cp6_782::CP6_782>(&mut out, "cp6_782", tier, 8);
+    gt_rels::<ark_mnt4_753::MNT4_753>(&mut out, "mnt4_753", tier, 8);
+    gt_rels::<ark_mnt6_753::MNT6_753>(&mut out, "mnt6_753", tier, 8);
 
     vec_rels::<ark_bls12_381::g1::Config>(&mut out, "bls12_381.G1", tier, true);
     vec_rels::<ark_bn254::g1::Config>(&mut out, "bn254.G1", tier, false);
@@ -1740,7 +1776,7 @@ fn relations(tier: Tier) -> Vec<Rel> {
 fn main() {
     vh_core::engine::main(PropSpec {
         id: "C10",
-        rule: "Byte strings are built by class and fed to deserialize_with_mode or, for about half of the strings (a hash of the bytes decides), to the convenience method documented as its synonym (deserialize_compressed / _unchecked / deserialize_uncompressed / _unchecked) (Affine 3/4, Projective 1/4) in one compression mode and both validation modes, behind a counting reader, followed by 0..16 random padding bytes: (a) valid encodings of subgroup points; (b) 1..3 bit flips, arbitrary flag patterns (generic 2-bit SW / 1-bit TE flags, 3-flag zcash header of curves/bls12_381); (c) compressed x (resp. y) without square root by the harness' Euler criterion; (d) on-curve points outside the subgroup (from small/edge x, r*R, points of small prime order, subgroup point + torsion point; TE: orders 2 and 4), verified by reference multiplication; (e) off-curve (x,y) uncompressed: (t^2 x, t^3 y) with t in the prime subfield, y+1, x+1, random, verified with the harness' curve equation; (f) coordinates + p or with an unused high bit set; (g) truncation to a shorter length; (h) uniform / plausible (all coordinates reduced) / constant bytes. Same for 14 prime fields, 6 towers and PairingOutput of 6 pairings (-g, g*c with c in F_p, arbitrary elements, 0). Toy curves additionally: every 2-byte (1-byte) compressed string and every (x byte, y byte, 5 values of the flag byte) uncompressed string exhaustively, with the expectation derived from the harness' own decoding and point table. Vec<Affine> with hostile length prefixes runs in a child process under an allocation guard. Containers whose element validation goes through Projective::batch_check / Projective::check (batch/*: Vec<Projective>, [Projective;3], Vec<(Projective,Affine)>, Vec<Affine> of 1..40 (thorough 120) elements on 4 SW and 3 TE curves, framed by the harness from element encodings: subgroup points, identities and at most one invalid element - outside the subgroup incl. the order-2 point with x = 0, off-curve, without root - at a random position) must be rejected with Validate::Yes exactly when an invalid element is present and otherwise decode element-wise to the encoded points. The curve lists include the SWU-isogenous helper curves of bls12_381 / bls12_377 (WBConfig::IsogenousCurve) and test-curves' secp256k1 and ed_on_bls12_381. Oracles: no panic; bytes consumed <= serialized_size; Validate::Yes and Ok(P) => coordinates reduced, curve equation holds as evaluated by vh_core::curve, r*P = O by double-and-add over double_in_place/+= (toy: affine oracle law); classes (c)-(f) must be Err with Validate::Yes; class (a) must be Ok with the same point; PairingOutput: f^r = 1 by square-and-multiply. Non-trivial: class other than (a); distinct = distinct decoded choice sequences.",
+        rule: "Byte strings are built by class and fed to deserialize_with_mode or, for about half of the strings (a hash of the bytes decides), to the convenience method documented as its synonym (deserialize_compressed / _unchecked / deserialize_uncompressed / _unchecked) (Affine 3/4, Projective 1/4) in one compression mode and both validation modes, behind a counting reader, followed by 0..16 random padding bytes: (a) valid encodings of subgroup points; (b) 1..3 bit flips, arbitrary flag patterns (generic 2-bit SW / 1-bit TE flags, 3-flag zcash header of curves/bls12_381); (c) compressed x (resp. y) without square root by the harness' Euler criterion; (d) on-curve points outside the subgroup (from small/edge x, r*R, points of small prime order, subgroup point + torsion point; TE: orders 2 and 4), verified by reference multiplication; (e) off-curve (x,y) uncompressed: (t^2 x, t^3 y) with t in the prime subfield, y+1, x+1, random, verified with the harness' curve equation; (f) coordinates + p or with an unused high bit set; (g) truncation to a shorter length; (h) uniform / plausible (all coordinates reduced) / constant bytes. Same for 14 prime fields, 6 towers and PairingOutput of 10 pairings (-g, g*c with c in F_p, g*z and z for z of small prime order l < 200 in the target field's multiplicative group, arbitrary elements, 0). Toy curves additionally: every 2-byte (1-byte) compressed string and every (x byte, y byte, 5 values of the flag byte) uncompressed string exhaustively, with the expectation derived from the harness' own decoding and point table. Vec<Affine> with hostile length prefixes runs in a child process under an allocation guard. Containers whose element validation goes through Projective::batch_check / Projective::check (batch/*: Vec<Projective>, [Projective;3], Vec<(Projective,Affine)>, Vec<Affine> of 1..40 (thorough 120) elements on 4 SW and 3 TE curves, framed by the harness from element encodings: subgroup points, identities and at most one invalid element - outside the subgroup incl. the order-2 point with x = 0, off-curve, without root - at a random position) must be rejected with Validate::Yes exactly when an invalid element is present and otherwise decode element-wise to the encoded points. The curve lists include the SWU-isogenous helper curves of bls12_381 / bls12_377 (WBConfig::IsogenousCurve) and test-curves' secp256k1 and ed_on_bls12_381. Oracles: no panic; bytes consumed <= serialized_size; Validate::Yes and Ok(P) => coordinates reduced, curve equation holds as evaluated by vh_core::curve, r*P = O by double-and-add over double_in_place/+= (toy: affine oracle law); classes (c)-(f) must be Err with Validate::Yes; class (a) must be Ok with the same point; PairingOutput: f^r = 1 by square-and-multiply. Non-trivial: class other than (a); distinct = distinct decoded choice sequences.",
         assumptions: &[
             "hostile encodings of (c)-(e) are produced with arkworks' own serializer from unchecked points (C09 checks the serializer); (f) and flag mutations use the harness' description of the byte layout (size.layout fails if it disagrees with serialized_size)",
             "Validate::No carries no validity requirement (only no panic / bounded read); truncated inputs carry no Err requirement beyond the generic oracle",
